@@ -381,6 +381,10 @@ func c08(r *rep.Run) {
 			}
 		}
 		rec = func(k int) {
+			if k >= 3 && r.Expired() {
+				r.Capped("C08 compile-history enumeration reached its time budget; shorter histories were completed first within each shard")
+				return
+			}
 			runHist(k)
 			if k == depth {
 				return
